@@ -8,6 +8,7 @@ import (
 	"regexp"
 	"strings"
 
+	"github.com/JunNishimura/Goit/internal/atomicfile"
 	"github.com/JunNishimura/Goit/internal/object"
 	"github.com/JunNishimura/Goit/internal/sha"
 )
@@ -96,13 +97,7 @@ func (h *Head) Update(refs *Refs, rootGoitPath, newRef string) error {
 	if _, err := os.Stat(headPath); os.IsNotExist(err) {
 		return errors.New("fail to find HEAD, cannot update")
 	}
-	f, err := os.Create(headPath)
-	if err != nil {
-		return fmt.Errorf("fail to create HEAD: %w", err)
-	}
-	defer f.Close()
-
-	if _, err := f.WriteString(fmt.Sprintf("ref: refs/heads/%s", newRef)); err != nil {
+	if err := atomicfile.Write(headPath, rootGoitPath, []byte(fmt.Sprintf("ref: refs/heads/%s", newRef))); err != nil {
 		return fmt.Errorf("fail to write HEAD: %w", err)
 	}
 
